@@ -476,6 +476,58 @@ def harness_arm(r):
         return f'"{fn.name}" => {{ {" ".join(decl)} o.{fn.name}({", ".join(args)}); Some(String::new()) }}'
     return None
 
+def classify(tag, fn, privs, broken, ctor):
+    """one `pub fn` -> Row (role, fields, op, codec)"""
+    r = Row(tag, fn)
+    recv = [p[1] for p in fn.params if p[0] == "self"]
+    body_n = inline_private(fn.body, privs)
+    hand = HAND.get((tag, fn.name))
+    if hand is not None:
+        hit = [h for h in hand if h[0] == fn.body]
+        if hit:
+            hid = hit[0][1]
+            r.codec = "(CHand %s)" % S(hid)
+            if hid in DOC_LEVEL:
+                r.role = "ROther"; r.op = "ONone"
+            else:
+                r.role = "RGetter" if (hid in HAND_GETTERS) else "RSetter"; r.op = "OHand"
+        else:
+            r.role = "RGetter" if recv == ["&self"] else "RSetter"
+            r.unrec("hand-modelled function changed")
+    elif not recv or fn.name in OTHER_NAMES or ctor == "doc":
+        r.role = "ROther"; r.note = "no self receiver" if not recv else ("document-level" if ctor == "doc" else "not a field accessor")
+    elif recv == ["&self"]:
+        r.role = "RGetter"
+        if not match_getter(r, body_n, fn.ret, fn.params, broken): r.unrec()
+    elif recv == ["&mut self"]:
+        r.role = "RSetter"
+        if not match_setter(r, body_n, fn.params, broken): r.unrec()
+    else:
+        r.role = "ROther"; r.note = "consumes self"
+    return r
+
+def selftest():
+    """translate/fixtures/accessors.rs: one function per template of the catalogue plus near misses;
+    translate/fixtures/accessors.expected: `method role op codec fields` per line.  A template that starts to
+    accept something else (or stops accepting its fixture) fails the translator run."""
+    fdir = os.path.join(os.path.dirname(os.path.abspath(__file__)), "fixtures")
+    src = os.path.join(fdir, "accessors.rs"); exp = os.path.join(fdir, "accessors.expected")
+    if not os.path.exists(src): return []
+    toks = rs.tokenize(open(src).read())
+    got = []
+    for ty, body in rs.impl_blocks(toks):
+        fns = rs.fns_of(body)
+        privs = {f.name: f.body for f in fns if not f.vis}
+        for fn in fns:
+            if fn.vis != "pub": continue
+            r = classify("fixture::" + ty, fn, privs, set(), "from_para")
+            codec = "Unrecognised" if "Unrecognised" in r.codec else r.codec
+            got.append("%s %s %s %s %s" % (fn.name, r.role, r.op, codec.replace(" ", "_"), ",".join(r.fields) or "-"))
+    if os.environ.get("ACCESSORS_FIXTURE_WRITE"):
+        open(exp, "w").write("\n".join(got) + "\n")
+    want = [l.rstrip("\n") for l in open(exp)] if os.path.exists(exp) else []
+    return [f"fixture mismatch: got {g!r}, expected {w!r}" for g, w in zip(got + [None] * len(want), want + [None] * len(got)) if g != w and (g or w)]
+
 def main():
     repo, gendir = sys.argv[1], sys.argv[2]
     enums, broken, notes = scan_fields(repo)
@@ -492,32 +544,7 @@ def main():
             for fn in fns:
                 if not fn.vis.startswith("pub") or fn.vis != "pub":
                     continue
-                r = Row(tag, fn)
-                recv = [p[1] for p in fn.params if p[0] == "self"]
-                body_n = inline_private(fn.body, privs)
-                hand = HAND.get((tag, fn.name))
-                if hand is not None:
-                    hit = [h for h in hand if h[0] == fn.body]
-                    if hit:
-                        hid = hit[0][1]
-                        r.codec = "(CHand %s)" % S(hid)
-                        if hid in DOC_LEVEL:
-                            r.role = "ROther"; r.op = "ONone"
-                        else:
-                            r.role = "RGetter" if (hid in HAND_GETTERS) else "RSetter"; r.op = "OHand"
-                    else:
-                        r.role = "RGetter" if recv == ["&self"] else "RSetter"
-                        r.unrec("hand-modelled function changed")
-                elif not recv or fn.name in OTHER_NAMES or ctor == "doc":
-                    r.role = "ROther"; r.note = "no self receiver" if not recv else ("document-level" if ctor == "doc" else "not a field accessor")
-                elif recv == ["&self"]:
-                    r.role = "RGetter"
-                    if not match_getter(r, body_n, fn.ret, fn.params, broken): r.unrec()
-                elif recv == ["&mut self"]:
-                    r.role = "RSetter"
-                    if not match_setter(r, body_n, fn.params, broken): r.unrec()
-                else:
-                    r.role = "ROther"; r.note = "consumes self"
+                r = classify(tag, fn, privs, broken, ctor)
                 r.arm = harness_arm(r) if r.role != "ROther" else None
                 if r.role != "ROther" and r.arm is None and "Unrecognised" not in r.codec:
                     r.unrec("signature outside the harness catalogue (%s)->%s" % (",".join(t for _, t in fn.params), fn.ret))
@@ -623,6 +650,11 @@ def main():
         print(f"  UNRECOGNISED {r.ty}::{r.method}")
     for n in notes:
         print("  NOTE " + n)
+    bad = selftest()
+    for b in bad:
+        print("  SELFTEST " + b)
+    if bad:
+        sys.exit(3)
 
 def view_variant(tag):
     return "".join(w.capitalize() for w in re.split(r"::|_", tag))
